@@ -134,6 +134,15 @@ func init() {
 		return fr.i.bytesCompare(args[0], args[1])
 	}
 	externals["bytes.Compare"] = externals["internal/bytealg.Compare"]
+	externals["internal/bytealg.CompareString"] = func(fr *frame, args []value) value {
+		a, ok1 := args[0].(string)
+		b, ok2 := args[1].(string)
+		if !ok1 || !ok2 {
+			panic(unsupported("strings.Compare on symbolic text"))
+		}
+		return strings.Compare(a, b)
+	}
+	externals["strings.Compare"] = externals["internal/bytealg.CompareString"]
 	externals["internal/bytealg.Equal"] = func(fr *frame, args []value) value {
 		return fr.i.bytesEqual(args[0], args[1])
 	}
